@@ -357,6 +357,7 @@ func c10Case(op, pat string, e int, indel, rc bool, seq []byte, circ bool, begin
 func c10H(s string) string { return hx([]byte(s)) }
 
 func (c10) Gen(rng *rand.Rand, tier string, emit func(string)) {
+	defer c10GenConc(rng, tier, emit) // last: the concurrent scans (their own PRNG draws come after every other case)
 	// ---- hand-picked cases -------------------------------------------------------------------
 	for _, p := range []string{"ACGT", "A[T]C!GT", "acgt", "A#", "#A", "A##", "!A#", "!A#C", "G!A#", "![AC]", "![AC]#", "[AC]#", "[AC", "A]", "[]", "[A#]",
 		"A!", "!", "!!A", "!#", "A!#", "AC#GT", "N", "NNNN", "X", "E", "A B", "a[ct]g", "[A][C]", "[[A]]", "A[!C]", "R#Y#", "ACGTRYMKSWBDHVNU",
@@ -751,6 +752,9 @@ func (c10) Exec(c string) (string, []Fail) {
 		fails = append(fails, Fail{Sig: sig, Text: fmt.Sprintf(format, a...)})
 	}
 	stat("op:" + f[0])
+	if f[0] == "conc" {
+		return c10ExecConc(f)
+	}
 	keepErr := f[0] == "budget" // a rejection that is the point of the case (budget guard) is not a trivial case
 	res := guardT(10*time.Second, func() string {
 		if os.Getenv("C10DEBUG") != "" {
